@@ -4,7 +4,14 @@ package lib
 // VERIF_SEED, so that a disagreement replays exactly.
 type Rng struct{ s uint64 }
 
-func NewRng(seed uint64) *Rng { return &Rng{s: seed*0x9E3779B97F4A7C15 + 0x1234567} }
+// NewRng hashes the seed into the state: with the plain state seed*gamma the stream of seed k+1 would be
+// the stream of seed k shifted by one draw.
+func NewRng(seed uint64) *Rng {
+	z := seed*0xD1342543DE82EF95 + 0x1234567
+	z = (z ^ (z >> 32)) * 0xDABA0B6EB09322E3
+	z = (z ^ (z >> 29)) * 0x94D049BB133111EB
+	return &Rng{s: z ^ (z >> 32)}
+}
 
 func (r *Rng) Next() uint64 {
 	r.s += 0x9E3779B97F4A7C15
